@@ -133,7 +133,9 @@ pub mod thread {
   }
 
   pub fn sleep(d: Duration) {
-    crate::time::advance(d);
+    if ctx::auto_time() {
+      crate::time::advance(d);
+    }
     shuttle::thread::yield_now();
   }
 
